@@ -829,3 +829,90 @@ def rule_putmask1(ctx, rels):
                         "np.place)", instance=f"{f.qualname}:putmask")
     if n == 0:
         r.ok("PUTMASK1", "modules", ",".join(rels), "", "no np.putmask call")
+
+
+def rule_cmpstmt1(ctx, rels):
+    r = ctx.r
+    r.rule("CMPSTMT1", "an expression statement that is a bare comparison "
+                       "(`x[mask] == 2`) computes a value and throws it "
+                       "away: `==` typed for `=`. In diagonalize_form it "
+                       "was meant to send the zero eigenvalues to the end "
+                       "of the 'minkowski' ordering")
+    n = 0
+    for rel in rels:
+        mod = ctx.p.module_by_rel(rel)
+        for f in ctx.p.all_functions:
+            if f.module is not mod:
+                continue
+            for st in ast.walk(f.node):
+                if isinstance(st, ast.Expr) and isinstance(
+                        st.value, ast.Compare) and any(
+                        isinstance(o, (ast.Eq, ast.NotEq)) for o in
+                        st.value.ops):
+                    n += 1
+                    r.analysed(f)
+                    r.violation(
+                        "CMPSTMT1", f"{f.fq}|{dotted(st.value)[:40]}",
+                        loc(f, st), dotted(st.value)[:80],
+                        f"`{dotted(st.value)[:60]}` is a statement: the "
+                        "comparison has no effect (an assignment was "
+                        "meant). The zero eigenvalues of a degenerate form "
+                        "keep sort index 0 and are placed between the "
+                        "negative and the positive directions instead of "
+                        "last", instance=f"{f.qualname}:bare-comparison")
+    if n == 0:
+        r.ok("CMPSTMT1", "modules", ",".join(rels), "",
+             "no bare comparison statement")
+
+
+def rule_nulldir1(ctx):
+    r = ctx.r
+    r.rule("NULLDIR1", "diagonalize_form returns an INVERTIBLE W (and its "
+                       "inverse) also for a degenerate form: the "
+                       "directions of eigenvalue 0 are left unscaled "
+                       "(factor 1 in D and in Dinv). A masked reciprocal "
+                       "`np.divide(1, Dinv, out=D, where=~zero)` into a "
+                       "zeros buffer leaves 0 on the diagonal of D, and "
+                       "sqrt(|0|) = 0 on that of Dinv: W and Winv are both "
+                       "singular, and the 'diagonalised' Coxeter generators "
+                       "of every affine group (infinite dihedral, (2,2,inf), "
+                       "..) have determinant 0 and are not involutions")
+    CORE_ = "geometry_tools/utils/core.py"
+    f = ctx.p.get_function(CORE_, "diagonalize_form")
+    r.analysed(f)
+    masked = [c for c in ast.walk(f.node) if isinstance(c, ast.Call)
+              and dotted(c.func) in ("np.divide", "np.reciprocal")
+              and any(k.arg == "where" for k in c.keywords)
+              and any(k.arg == "out" for k in c.keywords)]
+    inst = "diagonalize_form:null-directions"
+    if not masked:
+        r.ok("NULLDIR1", inst, loc(f, f.node), "",
+             "no masked reciprocal into a zeros buffer")
+        return
+    # is the masked-out part given a value afterwards?
+    for c in masked:
+        out = next(k.value for k in c.keywords if k.arg == "out")
+        mask = next(k.value for k in c.keywords if k.arg == "where")
+        mnames = {x.id for x in ast.walk(mask) if isinstance(x, ast.Name)}
+        filled = False
+        for st in ast.walk(f.node):
+            if isinstance(st, ast.Assign) and len(st.targets) == 1 \
+                    and isinstance(st.targets[0], ast.Subscript) \
+                    and dotted(st.targets[0].value) == dotted(out) \
+                    and {x.id for x in ast.walk(st.targets[0].slice)
+                         if isinstance(x, ast.Name)} & mnames:
+                filled = True
+        if filled:
+            r.ok("NULLDIR1", inst, loc(f, c), dotted(c)[:70],
+                 "the masked-out entries are set afterwards")
+        else:
+            r.violation(
+                "NULLDIR1", f"{f.fq}|{dotted(out)}", loc(f, c),
+                dotted(c)[:90],
+                f"`{dotted(c)[:70]}` leaves the entries where the mask "
+                f"fires at 0 in `{dotted(out)}`, which is a factor of the "
+                "returned W: for a form with a zero eigenvalue W (and "
+                "Winv, scaled by sqrt(|0|)) is singular -- "
+                "CoxeterGroup([('a','b',-1)]).geometric_representation("
+                "diagonalize=True) has generators of determinant 0",
+                instance=inst)
